@@ -207,9 +207,9 @@ def gen_rules(r, positioning, ncols, allow=None, max_rules=5, posallow=None):
             al = posallow or allow or ("next", "assoc", "attach", "attr", "put_copy")
         else:
             al = allow or ("next", "insert", "delete", "put_copy", "assoc", "attach", "attr", "put_glyph")
-        act, _ = gen_action_ext(r, pre, pre + length, al)
+        act, kinds = gen_action_ext(r, pre, pre + length, al)
         con = gen_constraint(r, pre, length) if r.random() < 0.3 else b''
-        rules.append((pre + length, pre, con, bytes(act), pat))     # the sort key is the rule's total length (Code's rule_length)
+        rules.append((pre + length, pre, con, bytes(act), pat, kinds))     # the sort key is the rule's total length (Code's rule_length)
     return pre, rules
 
 
@@ -245,7 +245,7 @@ def gen_font(r, npasses=None, dirn=None, maxloop=None, posallow=None, allow=None
     d = r.choice([0, 0, 1]) if dirn is None else dirn
     data = build(passes_fn, np_, isubst, ipos, CLASSES, dirn=d, r=r)
     desc = {"passes": np_, "ipos": ipos, "ncols": ncols, "dir": d,
-            "rules": [[{"sort": ru[0], "pre": ru[1], "con": ru[2].hex(), "act": ru[3].hex(), "pat": list(ru[4])} for ru in s[1]] for s in specs]}
+            "rules": [[{"sort": ru[0], "pre": ru[1], "con": ru[2].hex(), "act": ru[3].hex(), "pat": list(ru[4]), "kinds": ru[5]} for ru in s[1]] for s in specs]}
     return data, desc
 
 
